@@ -287,6 +287,13 @@ func respond(r *env.Recorded) (*http.Response, error) {
 
 	switch roleOf(r) {
 	case "authorization-endpoint":
+		if strings.HasPrefix(u.Path, "/empty") {
+			resp := env.Reply(nil, http.StatusNoContent, "", "")
+			resp.Header.Set("X-Authz-Digest", d)
+
+			return resp, nil
+		}
+
 		status := http.StatusOK
 		if sum[1]%4 == 0 {
 			status = http.StatusForbidden
